@@ -2,14 +2,15 @@
 import itertools
 import json
 
-from harness.gallina import gbool, glist, gn, gpair, gstr
-from harness.props import C10merge
+from harness.props import C10merge, C10xml
+from harness.props import c10queries as Q
 from harness.props import tscommon as T
-from harness.props.tscommon import Tree, gbits, gop, gostr, gout, gres_bool, gstrs
+from harness.props.tscommon import Tree
 
 ID = "C10"
-COQ_TARGETS = ["TS.vo", "TSProofs.vo", "TSProofs2.vo", "C10Merge.vo", "CorrC10.vo", "CorrC10merge.vo", "Props/C10.vo"]
-SUBSUITES = {"merge": C10merge}
+COQ_TARGETS = ["TS.vo", "TSProofs.vo", "TSProofs2.vo", "C10Merge.vo", "C10Load.vo", "C10LoadProofs.vo", "CorrC10.vo",
+               "CorrC10merge.vo", "CorrC10xml.vo", "Props/C10.vo"]
+SUBSUITES = {"merge": C10merge, "xml": C10xml}
 PROPS_FILE = "Props/C10.v"
 CORR_IMPORTS = "Base TS CorrC10"
 OPEN_SCOPES = ["string_scope", "list_scope"]
@@ -34,7 +35,14 @@ RULE = (
     "forms and is_instance_of on all pairs of user types + TOP/AnnotationBase/Annotation, object identity of every reachable "
     "Type) and compared with the model's value of that object (Merge.v on TS.v) and with the declared tree of the oracle "
     "(most specific declared supertype; reachability in the union of the declared edges). Quick: all ordered pairs of 11 "
-    "declarations of {m.A, m.B, m.C} under three programs + 80 seeded random cases over 5 types on a random guide forest."
+    "declarations of {m.A, m.B, m.C} under three programs + 80 seeded random cases over 5 types on a random guide forest. "
+    "Sub-suite 'xml' (harness/props/C10xml.py, coq/CorrC10xml.v): a descriptor written by the harness - a forest of user types "
+    "with full and DOT-FREE names sharing short names ({a.A, A, b.A, B}: every forest of <= 2 types, a sample of those of 3; "
+    "random forests of 4-12 types, depth <= 7), typeDescriptions in any document order, features with built-in / user range "
+    "and element types, 6 % with a type below a final array type (must be refused) - is loaded with load_typesystem, 0-3 "
+    "create_type / create_feature / instantiation calls follow on the loaded object, then the same query battery as the main "
+    "suite runs on it; compared with C12's model of the reader replayed on TS.v (C10Load.load_ts) and judged against the tree "
+    "the descriptor declares. Quick: 130 enumerated + 70 random."
 )
 TRUSTED = [
     "Coq 8.16.1 kernel and vm_compute; theorems in Props/C10.v are closed under the global context",
@@ -46,11 +54,17 @@ TRUSTED = [
     "the ghost rank supplies the fuel of the recursive queries; the theorems state that it suffices",
     "merged type systems: C13's model coq/Merge.v of merge_typesystems (its own correspondence check ties it to /repo; here it "
     "is evaluated on every merge stage and compared again) and MergeProofs.merge_WFh",
+    "loaded type systems: C12's model coq/Descr.v + coq/DescrTS.v of TypeSystemDeserializer (its own correspondence check ties it "
+    "to /repo; here it is evaluated on every case of the sub-suite 'xml' and compared again) and DescrTSProofs.loaded_WF; the "
+    "creation order chosen by toposort_flatten is observed and constrained by Descr.order_okb",
 ]
 ASSUMPTIONS = [
     "type systems built by create_type / create_feature / instantiation from TypeSystem() and by merge_typesystems of such type "
     "systems, nested and extended (C10_built_WF; sub-suite 'merge'); a merge that raises ValueError is not judged here (which "
-    "inputs must merge is C13); XML and JSON constructors are C12, C02 (theorems are stated for every ts with WFh ts)",
+    "inputs must merge is C13); load_typesystem of descriptors that declare every user type once, with declared or built-in "
+    "supertypes / ranges and no feature declared twice along a chain, in any document order, extended afterwards "
+    "(C10_obtained_WF; sub-suite 'xml'; which descriptors load and what is written back is C12); JSON-embedded type systems are "
+    "C02 (theorems are stated for every ts with WFh ts)",
     "identifiers are ASCII; type names are non-empty and do not end in a dot",
     "is_instance_of on arbitrary strings is compared with the model on every string pair; the oracle demands the declared "
     "relation (or TypeNotFoundError for a name get_type does not resolve) except where the code compares the strings before "
@@ -217,50 +231,12 @@ def generate(rng, tier):
 
 
 # ---------------------------------------------------------------------------------------------- implementation
-def _q(cassis, fn):
-    try:
-        return {"ok": bool(fn())}
-    except Exception as e:  # noqa
-        return {"err": T.err_kind(cassis, e)}
-
-
 def run_impl(cassis, sc):
-    from cassis.typesystem import TypeNotFoundError
     ts, outcomes, changed = T.run_ops(cassis, sc["ops"])
-    order = [t.name for t in ts.get_types(built_in=True)]
-    names = [n for n in sc["names"] if ts.contains_type(n, True)]
-    ty = {n: ts.get_type(n) for n in names}
-    obs = {"out": outcomes, "changed_on_failure": changed, "names": names, "order": order}
-    obs["sub_ts"] = [bool(ts.subsumes(a, b)) for a in names for b in names]
-    obs["sub_ty"] = [bool(ty[a].subsumes(ty[b])) for a in names for b in names]
-    obs["sub_obj"] = [bool(ts.subsumes(ty[a], ty[b])) for a in names for b in names]
-    obs["iio"] = [bool(ts.is_instance_of(b, a)) for a in names for b in names]
-    obs["iio_obj"] = [bool(ts.is_instance_of(ty[b], ty[a])) for a in names for b in names]
-    obs["super"] = [ty[n].supertype.name if ty[n].supertype is not None else None for n in names]
-    obs["children"] = [sorted(c.name for c in ty[n].children) for n in names]
-    obs["desc"] = [sorted(d.name for d in ty[n].descendants) for n in names]
-    obs["prim"] = [bool(ts.is_primitive(n)) for n in names]
-    get = []
-    for s in sc["lookups"]:
-        try:
-            get.append(ts.get_type(s).name)
-        except TypeNotFoundError:
-            get.append(None)
-    obs["get"] = get
-    obs["contains"] = [bool(ts.contains_type(s)) for s in sc["lookups"]]
-    obs["contains_exact"] = [bool(ts.contains_type(s, True)) for s in sc["lookups"]]
-    obs["pairs_sub"] = [_q(cassis, lambda: ts.subsumes(x, y)) for x, y in sc["pairs"]]
-    # is_instance_of(child, parent) with the names as given (full, short, ambiguous, unknown) ...
-    obs["pairs_iio"] = [_q(cassis, lambda: ts.is_instance_of(y, x)) for x, y in sc["pairs"]]
-    # ... and with one side passed as the registered Type object (found by scanning get_types, not through get_type)
-    by_name = {t.name: t for t in ts.get_types(built_in=True)}
-    obs["pairs_iio_objchild"] = [_q(cassis, lambda: ts.is_instance_of(by_name[y], x)) if y in by_name else None
-                                 for x, y in sc["pairs"]]
-    obs["pairs_iio_objparent"] = [_q(cassis, lambda: ts.is_instance_of(y, by_name[x])) if x in by_name else None
-                                  for x, y in sc["pairs"]]
-    obs["ident"] = T.identity_failures(ts)[:5]
-    # the same identity requirement on the type system obtained by a descriptor round trip (loading is C12's subject:
-    # a round trip that raises is not judged here)
+    obs = {"out": outcomes, "changed_on_failure": changed}
+    obs.update(Q.observe(cassis, ts, sc))          # the query battery (c10queries.py; shared with the sub-suite "xml")
+    # the same identity requirement on the type system obtained by a descriptor round trip (the hierarchy queries on
+    # loaded type systems are the subject of the sub-suite "xml"; a round trip that raises is not judged here)
     obs["ident_xml"] = []
     if sc.get("xml"):
         try:
@@ -274,20 +250,7 @@ def run_impl(cassis, sc):
 
 
 # ---------------------------------------------------------------------------------------------- oracle
-def _iio_expect(tree, x, y):
-    """What the property demands of is_instance_of(child=y, parent=x) for two strings: the answer of the declared tree on the
-    types the names resolve to (full name, else unique short name), TypeNotFoundError when one of them does not resolve.
-    None = no demand: the string comparisons the code makes before any lookup (see ASSUMPTIONS) decide these."""
-    tx, ty = tree.resolve(x), tree.resolve(y)
-    if x == y:
-        return {"ok": True} if tx is not None else None
-    if y == T.TOP:
-        return {"ok": False} if tx is not None and tx != T.TOP else None
-    if ty is None or tx is None:
-        return {"err": "ETypeNotFound"}
-    if tx == ty or ty == T.TOP:
-        return None
-    return {"ok": tree.subsumes(tx, ty)}
+_iio_expect = Q.iio_expect
 
 
 def oracle(cassis, sc, obs):
@@ -299,53 +262,9 @@ def oracle(cassis, sc, obs):
     if obs["changed_on_failure"]:
         i = obs["changed_on_failure"][0]
         return f"unchanged: refused operation {i} {json.dumps(sc['ops'][i])} changed the type system"
-    if obs["order"] != list(tree.sup):
-        return (f"registry: get_types(built_in=True) differs from the declared types in creation order: unexpected "
-                f"{sorted(set(obs['order']) - set(tree.sup))[:5]}, missing {sorted(set(tree.sup) - set(obs['order']))[:5]}")
-    names = [n for n in sc["names"] if n in tree.sup]
-    if names != obs["names"]:
-        return f"registry: contains_type(exact) disagrees on {sorted(set(names) ^ set(obs['names']))[:5]}"
-    exp = [tree.subsumes(a, b) for a in names for b in names]
-    for key, what in (("sub_ts", "ts.subsumes(names)"), ("sub_ty", "Type.subsumes"), ("sub_obj", "ts.subsumes(types)"),
-                      ("iio", "is_instance_of(names)"), ("iio_obj", "is_instance_of(types)")):
-        if obs[key] != exp:
-            k = [i for i, (x, y) in enumerate(zip(obs[key], exp)) if x != y][0]
-            a, b = names[k // len(names)], names[k % len(names)]
-            return f"subsumes: {what} says {obs[key][k]} for ancestor={a} descendant={b}, the declared tree says {exp[k]}"
-    for i, n in enumerate(names):
-        if obs["super"][i] != tree.sup[n]:
-            return f"supertype: {n}.supertype is {obs['super'][i]}, declared {tree.sup[n]}"
-        if obs["children"][i] != tree.children(n):
-            return f"children: {n}.children = {obs['children'][i][:8]}, types declaring it as supertype: {tree.children(n)[:8]}"
-        if obs["desc"][i] != tree.subtree(n):
-            return f"descendants: {n}.descendants = {obs['desc'][i][:8]}, subtree in the declared relation: {tree.subtree(n)[:8]}"
-        if obs["prim"][i] != tree.is_primitive(n):
-            return f"is_primitive: {n} gives {obs['prim'][i]}"
-    for s, g, c, ce in zip(sc["lookups"], obs["get"], obs["contains"], obs["contains_exact"]):
-        want = tree.resolve(s)
-        if g != want:
-            return f"get_type: get_type({s!r}) gave {g}, expected {want}"
-        if c != (want is not None):
-            return f"contains_type: contains_type({s!r}) gave {c}"
-        if ce != (s in tree.sup):
-            return f"contains_type: contains_type({s!r}, True) gave {ce}"
-    for (x, y), r in zip(sc["pairs"], obs["pairs_sub"]):
-        tx, ty_ = tree.resolve(x), tree.resolve(y)
-        want = {"err": "ETypeNotFound"} if tx is None or ty_ is None else {"ok": tree.subsumes(tx, ty_)}
-        if r != want:
-            return f"subsumes: ts.subsumes({x!r}, {y!r}) gave {r}, expected {want}"
-    for k, (x, y) in enumerate(sc["pairs"]):
-        want = _iio_expect(tree, x, y)
-        if want is None:
-            continue
-        for key, what in (("pairs_iio", f"is_instance_of({y!r}, {x!r})"), ("pairs_iio_objchild", f"is_instance_of(<Type {y}>, {x!r})"),
-                          ("pairs_iio_objparent", f"is_instance_of({y!r}, <Type {x}>)")):
-            r = obs[key][k]
-            if r is not None and r != want:
-                return (f"is_instance_of: {what} gave {r}; get_type resolves the parent to {tree.resolve(x)} and the child to "
-                        f"{tree.resolve(y)}, the declared tree demands {want} (ts.subsumes({x!r}, {y!r}) gave {obs['pairs_sub'][k]})")
-    if obs["ident"]:
-        return "identity: " + obs["ident"][0]
+    msg = Q.judge(tree, sc, obs, exact_order=True)
+    if msg:
+        return msg
     if obs["ident_xml"]:
         return "identity: after load_typesystem(ts.to_xml()): " + obs["ident_xml"][0]
     return None
@@ -353,38 +272,7 @@ def oracle(cassis, sc, obs):
 
 # ---------------------------------------------------------------------------------------------- Gallina
 def render(sc, obs):
-    pos = {n: i for i, n in enumerate(obs["order"])}
-    nb = len(T.BUILTIN_NAMES)
-
-    def gmask(l):
-        v = 0
-        for n in set(l):
-            v |= 1 << pos.get(n, 200)
-        return gn(v)
-
-    def gidx(n):
-        return gn(0 if n is None else pos.get(n, 200) + 1)
-
-    parts = [
-        glist([gop(o) for o in sc["ops"]]),
-        glist([gout(o) for o in obs["out"]]),
-        gstrs(obs["order"][nb:]),
-        gstrs(obs["names"]),
-        gbits(obs["sub_ts"]), gbits(obs["sub_ty"]), gbits(obs["iio"]),
-        glist([gidx(s) for s in obs["super"]]),
-        glist([gmask(l) for l in obs["children"]]),
-        glist([gmask(l) for l in obs["desc"]]),
-        glist([gn(len(l)) for l in obs["desc"]]),
-        gbits(obs["prim"]),
-        gstrs(sc["lookups"]),
-        glist([gidx(s) for s in obs["get"]]),
-        gbits(obs["contains"]), gbits(obs["contains_exact"]),
-        glist([gpair(gstr(x), gstr(y)) for x, y in sc["pairs"]]),
-        glist([gres_bool(r) for r in obs["pairs_sub"]]),
-        glist([gres_bool(r) for r in obs["pairs_iio"]]),
-        gbool(not obs["ident"] and not obs["ident_xml"]),
-    ]
-    return "mkCase " + " ".join(f"({p})" for p in parts)
+    return Q.render_case(sc["ops"], obs["out"], sc, obs, len(T.BUILTIN_NAMES), not obs["ident"] and not obs["ident_xml"])
 
 
 def nontrivial(sc):
@@ -499,7 +387,8 @@ def merge_tree_obligation(cassis, rng, n):
 def extra_checks(ctx):
     from harness import core
     return [T.observed_init_check(ctx["cassis"], ID),
-            merge_tree_obligation(ctx["cassis"], ctx["rng"], 60 if ctx["tier"] == "quick" else 600)] + core.run_subsuite(C10merge, ctx)
+            merge_tree_obligation(ctx["cassis"], ctx["rng"], 60 if ctx["tier"] == "quick" else 600)] \
+        + core.run_subsuite(C10merge, ctx) + core.run_subsuite(C10xml, ctx)
 
 
 MANIFEST = {
@@ -510,13 +399,14 @@ MANIFEST = {
                   "stated fuel bound), Type.subsumes (incl. the TOP shortcut), TypeSystem.subsumes and is_instance_of all decide the "
                   "declared supertype relation, get_type / contains_type resolve full and unique short names and fail otherwise, "
                   "final types cannot be subtyped and no name can be defined twice; refused operations change nothing. The invariant is "
-                  "also proved for the closure `built` of TypeSystem() under histories and merge_typesystems (nested, extended, "
-                  "one type system in several merges; on C13's model Merge.v). The model is "
+                  "also proved for the closure `obtained` of TypeSystem() under histories, merge_typesystems (nested, extended, "
+                  "one type system in several merges; on C13's model Merge.v) and load_typesystem of well-formed descriptors (on "
+                  "C12's model Descr.v / DescrTS.v). The model is "
                   "tied to /repo on every run by evaluating it inside Coq on the histories the implementation was run on.",
     "level_note": "Trusted: Coq kernel + vm_compute; hand-written model coq/TS.v (types refer to each other by name; Python object "
                   "identity is observed with `is` by the harness, not modelled); the initial state is compared with the observed "
-                  "TypeSystem() on every run; XML/JSON constructors are C12/C02 (theorems are stated for every WF ts); which inputs "
-                  "merge_typesystems must accept is C13. "
+                  "TypeSystem() on every run; the XML reader's model is C12's, the JSON constructor is C02 (theorems are stated "
+                  "for every WF ts); which inputs merge_typesystems must accept is C13. "
                   "Print Assumptions: closed under the global context.",
     "technique": "Coq proof over an executable Gallina model + in-Coq behavioural correspondence (exhaustive short histories, random deep trees)",
     "design_ref": "DESIGN.md section 5, C10",
